@@ -9,8 +9,12 @@ import (
 	"errors"
 	"fmt"
 	"io"
+	"math"
+	"math/big"
 	"math/rand"
 	"reflect"
+	"sort"
+	"strconv"
 	"strings"
 
 	"github.com/go-openapi/runtime"
@@ -23,6 +27,7 @@ import (
 //   produce  ByteStreamProducer / TextProducer from one source kind into a scripted writer
 //   discard  DiscardConsumer / DiscardProducer
 //   rt       JSON / XML / YAML producer -> consumer round trip on a supported value (differential only)
+//            shape slots: one number literal at every number slot of one destination shape, compared leaf by leaf as text
 //
 // The scripted reader and writer implement exactly StreamScripts.sread / swrite.
 
@@ -234,6 +239,9 @@ type c15In struct {
 	Content  Bs         `json:"content,omitempty"`
 	PClos    bool       `json:"payload_closable,omitempty"`
 	Shape    string     `json:"shape,omitempty"` // rt: which value
+	Slot     string     `json:"slot,omitempty"`  // rt/slots: destination shape (where the number slots are)
+	Num      string     `json:"num,omitempty"`   // rt/slots: the number literal
+	NumSrc   string     `json:"num_src,omitempty"` // rt/slots: how the source holds it: number (json.Number) | int (int64/uint64) | float (float64)
 	Script   string     `json:"script,omitempty"` // label of the script shape (for the distribution report)
 }
 
@@ -253,6 +261,10 @@ type c15Obs struct {
 	JErr     string `json:"json_oracle_err,omitempty"`
 	OK       bool   `json:"ok,omitempty"`
 	Detail   string `json:"detail,omitempty"`
+	Failed   bool     `json:"failed,omitempty"` // rt/slots: Produce or Consume returned an error (Detail says which)
+	Want     []string `json:"want,omitempty"`   // rt/slots: leaves of the value given to the producer
+	GotL     []string `json:"got_leaves,omitempty"` // rt/slots: leaves of the value the consumer rebuilt
+	Wire     Bs       `json:"wire,omitempty"`   // rt/slots: what the producer wrote
 }
 
 type c15 struct{}
@@ -636,6 +648,10 @@ func (c15) Run(inAny any) any {
 	case "discard":
 		c15RunDiscard(in, &obs)
 	case "rt":
+		if in.Shape == "slots" {
+			obs.Panicked, obs.Panic = recoverTo(func() { c15RunSlots(in, &obs) })
+			break
+		}
 		obs.Panicked, obs.Panic = recoverTo(func() { obs.OK, obs.Detail = c15RoundTrip(in) })
 	default:
 		panic("unknown kind " + in.Kind)
@@ -935,6 +951,464 @@ func c15RoundTrip(in c15In) (bool, string) {
 	panic("rt: shape " + in.Shape)
 }
 
+// ---------- rt/slots: one number at every number slot of a destination shape ----------
+//
+// The JSON consumer promises that numbers keep their format (UseNumber) wherever they land, not only in a
+// top-level *interface{}; the typed integer / float slots of all three codecs must hold every value of their type.
+// A case takes ONE number literal, puts it at every number slot of ONE destination shape, produces, consumes into a
+// fresh destination of the very same type (through a scripted reader), and compares the leaves of the two values as
+// texts: path = kind : exact decimal text. Nothing is compared as a float: a leaf that went through a float64 shows
+// its rounded digits.
+
+type c15SAny struct {
+	ID any `json:"id" yaml:"id"`
+}
+type c15SSlice struct {
+	Items []any `json:"items" yaml:"items"`
+}
+type c15SMap struct {
+	M map[string]any `json:"m" yaml:"m"`
+}
+type c15SPtr struct {
+	P  *any            `json:"p" yaml:"p"`
+	PS *[]any          `json:"ps" yaml:"ps"`
+	PM *map[string]any `json:"pm" yaml:"pm"`
+}
+type c15SOuter struct {
+	Sub  c15SAny            `json:"sub" yaml:"sub"`
+	PSub *c15SAny           `json:"psub" yaml:"psub"`
+	L    []c15SAny          `json:"l" yaml:"l"`
+	M    map[string]c15SAny `json:"m" yaml:"m"`
+}
+
+// C15Emb is exported because it is embedded (promoted fields of an embedded type).
+type C15Emb struct {
+	ID    any   `json:"id" yaml:"id"`
+	Items []any `json:"items" yaml:"items"`
+}
+type c15SEmb struct {
+	C15Emb `yaml:",inline"`
+	X      string `json:"x" yaml:"x"`
+}
+type c15SMixed struct {
+	I   int64       `json:"i" yaml:"i"`
+	ID  any         `json:"id" yaml:"id"`
+	U   uint64      `json:"u" yaml:"u"`
+	JN  json.Number `json:"jn" yaml:"jn"`
+	Any []any       `json:"any" yaml:"any"`
+}
+type c15NMap map[string]any
+type c15NSlice []any
+type c15NAny interface{}
+
+type c15TSub struct {
+	I int64   `json:"i" yaml:"i" xml:"i"`
+	U uint64  `json:"u" yaml:"u" xml:"u"`
+	F float64 `json:"f" yaml:"f" xml:"f"`
+}
+type c15Typed struct {
+	I    int64       `json:"i" yaml:"i" xml:"i"`
+	U    uint64      `json:"u" yaml:"u" xml:"u"`
+	PI   *int64      `json:"pi" yaml:"pi" xml:"pi"`
+	PU   *uint64     `json:"pu" yaml:"pu" xml:"pu"`
+	LI   []int64     `json:"li" yaml:"li" xml:"li"`
+	LU   []uint64    `json:"lu" yaml:"lu" xml:"lu"`
+	F    float64     `json:"f" yaml:"f" xml:"f"`
+	PF   *float64    `json:"pf" yaml:"pf" xml:"pf"`
+	S    string      `json:"s" yaml:"s" xml:"s"`
+	JN   json.Number `json:"jn" yaml:"jn" xml:"jn"`
+	B    *big.Int    `json:"b" yaml:"b" xml:"b"`
+	Sub  c15TSub     `json:"sub" yaml:"sub" xml:"sub"`
+	PSub *c15TSub    `json:"psub" yaml:"psub" xml:"psub"`
+	LSub []c15TSub   `json:"lsub" yaml:"lsub" xml:"lsub"`
+}
+type c15TMaps struct {
+	MI map[string]int64   `json:"mi" yaml:"mi"`
+	MU map[string]uint64  `json:"mu" yaml:"mu"`
+	MF map[string]float64 `json:"mf" yaml:"mf"`
+	MS map[string]c15TSub `json:"ms" yaml:"ms"`
+}
+type c15XAttr struct {
+	XMLName xml.Name  `xml:"doc"`
+	I       int64     `xml:"i,attr"`
+	U       uint64    `xml:"u,attr"`
+	F       float64   `xml:"f,attr"`
+	S       string    `xml:"s,attr"`
+	Sub     []c15XSub `xml:"sub>item"`
+}
+type c15XSub struct {
+	I int64  `xml:"i,attr"`
+	U uint64 `xml:",chardata"`
+}
+
+// c15TVals: the typed values derived from the literal.
+type c15TVals struct {
+	i int64
+	u uint64
+	f float64
+	b *big.Int
+	s string
+}
+
+func c15TypedVals(lit string) c15TVals {
+	t := c15TVals{s: lit, b: new(big.Int)}
+	mant := lit
+	if k := strings.IndexAny(mant, "eE"); k >= 0 {
+		mant = mant[:k]
+	}
+	neg := strings.HasPrefix(mant, "-")
+	var digits strings.Builder
+	for i := 0; i < len(mant); i++ {
+		if mant[i] >= '0' && mant[i] <= '9' {
+			digits.WriteByte(mant[i])
+		}
+	}
+	if digits.Len() > 0 {
+		t.b.SetString(digits.String(), 10)
+	}
+	if v, err := strconv.ParseInt(lit, 10, 64); err == nil {
+		t.i = v
+	} else {
+		t.i = int64(new(big.Int).And(t.b, big.NewInt(math.MaxInt64)).Uint64())
+		if neg {
+			t.i = -t.i
+		}
+	}
+	if v, err := strconv.ParseUint(lit, 10, 64); err == nil {
+		t.u = v
+	} else {
+		t.u = new(big.Int).And(t.b, new(big.Int).SetUint64(math.MaxUint64)).Uint64()
+	}
+	if neg {
+		t.b.Neg(t.b)
+	}
+	f, _ := strconv.ParseFloat(lit, 64)
+	switch {
+	case math.IsInf(f, 1):
+		f = math.MaxFloat64
+	case math.IsInf(f, -1):
+		f = -math.MaxFloat64
+	case math.IsNaN(f):
+		f = 0
+	}
+	t.f = f
+	return t
+}
+
+// c15SlotLeaf: the value an interface slot of the source holds.
+func c15SlotLeaf(codec, lit, numSrc string) any {
+	if numSrc == "string" {
+		return lit
+	}
+	if numSrc == "int" || codec == "yaml" && numSrc != "float" {
+		if v, err := strconv.ParseInt(lit, 10, 64); err == nil {
+			return v
+		}
+		if v, err := strconv.ParseUint(lit, 10, 64); err == nil {
+			return v
+		}
+	}
+	if codec == "json" {
+		return json.Number(lit)
+	}
+	// YAML has no number type beyond int64 / uint64 / float64 (a json.Number is a string to it)
+	return c15TypedVals(lit).f
+}
+
+type c15SlotDef struct {
+	name   string
+	codecs string // j, y, x
+	iface  bool   // has interface slots (else: typed slots only)
+	mk     func(n any, t c15TVals) any
+	fresh  func() any
+}
+
+func c15TSubOf(t c15TVals) c15TSub { return c15TSub{I: t.i, U: t.u, F: t.f} }
+
+var c15Slots = []c15SlotDef{
+	{"any", "jy", true, func(n any, _ c15TVals) any { return map[string]any{"n": n, "l": []any{n, "s"}} }, func() any { return new(any) }},
+	{"scalar", "jy", true, func(n any, _ c15TVals) any { return n }, func() any { return new(any) }},
+	{"map", "jy", true, func(n any, _ c15TVals) any { return map[string]any{"n": n, "l": []any{n, "s"}, "m": map[string]any{"k": n}} },
+		func() any { return new(map[string]any) }},
+	{"slice", "jy", true, func(n any, _ c15TVals) any { return []any{n, "s", []any{n}, map[string]any{"k": n}} }, func() any { return new([]any) }},
+	{"array", "jy", true, func(n any, _ c15TVals) any { return [2]any{n, []any{n}} }, func() any { return new([2]any) }},
+	{"struct_any", "jy", true, func(n any, _ c15TVals) any { return c15SAny{ID: n} }, func() any { return new(c15SAny) }},
+	{"struct_slice", "jy", true, func(n any, _ c15TVals) any { return c15SSlice{Items: []any{n, "s", n}} }, func() any { return new(c15SSlice) }},
+	{"struct_map", "jy", true, func(n any, _ c15TVals) any { return c15SMap{M: map[string]any{"k": n, "l": []any{n}}} }, func() any { return new(c15SMap) }},
+	{"struct_ptr", "jy", true, func(n any, _ c15TVals) any {
+		n1, l, m := n, []any{n}, map[string]any{"k": n}
+		return c15SPtr{P: &n1, PS: &l, PM: &m}
+	}, func() any { return new(c15SPtr) }},
+	{"struct_nested", "jy", true, func(n any, _ c15TVals) any {
+		return c15SOuter{Sub: c15SAny{n}, PSub: &c15SAny{n}, L: []c15SAny{{n}, {"s"}}, M: map[string]c15SAny{"k": {n}}}
+	}, func() any { return new(c15SOuter) }},
+	{"struct_embedded", "jy", true, func(n any, _ c15TVals) any { return c15SEmb{C15Emb: C15Emb{ID: n, Items: []any{n}}, X: "x"} },
+		func() any { return new(c15SEmb) }},
+	{"struct_mixed", "jy", true, func(n any, t c15TVals) any {
+		return c15SMixed{I: t.i, ID: n, U: t.u, JN: json.Number(t.s), Any: []any{n}}
+	}, func() any { return new(c15SMixed) }},
+	{"map_slice", "jy", true, func(n any, _ c15TVals) any { return map[string][]any{"k": {n, "s"}} }, func() any { return new(map[string][]any) }},
+	{"map_map", "jy", true, func(n any, _ c15TVals) any { return map[string]map[string]any{"a": {"k": n}} },
+		func() any { return new(map[string]map[string]any) }},
+	{"slice_slice", "jy", true, func(n any, _ c15TVals) any { return [][]any{{n}, {"s", n}} }, func() any { return new([][]any) }},
+	{"slice_map", "jy", true, func(n any, _ c15TVals) any { return []map[string]any{{"k": n}} }, func() any { return new([]map[string]any) }},
+	{"slice_struct", "jy", true, func(n any, _ c15TVals) any { return []c15SAny{{n}, {[]any{n}}} }, func() any { return new([]c15SAny) }},
+	{"named_map", "jy", true, func(n any, _ c15TVals) any { return c15NMap{"n": n} }, func() any { return new(c15NMap) }},
+	{"named_slice", "jy", true, func(n any, _ c15TVals) any { return c15NSlice{n, "s"} }, func() any { return new(c15NSlice) }},
+	{"named_any", "jy", true, func(n any, _ c15TVals) any { return map[string]c15NAny{"k": n, "l": []c15NAny{n}} },
+		func() any { return new(map[string]c15NAny) }},
+	{"ptr_ptr_any", "jy", true, func(n any, _ c15TVals) any { return []any{n} }, func() any { return new(*any) }},
+	{"ptr_ptr_struct", "jy", true, func(n any, _ c15TVals) any { return c15SAny{n} }, func() any { return new(*c15SAny) }},
+	{"ptr_ptr_slice", "jy", true, func(n any, _ c15TVals) any { return []any{n, "s"} }, func() any { return new(*[]any) }},
+	// an interface that already holds a pointer: encoding/json decodes into what it points to
+	{"any_holding_ptr", "j", true, func(n any, _ c15TVals) any { return c15SSlice{Items: []any{n}} }, func() any {
+		var a any = new(c15SSlice)
+		return &a
+	}},
+	{"typed", "jyx", false, func(_ any, t c15TVals) any {
+		i, u, f := t.i, t.u, t.f
+		sub := c15TSubOf(t)
+		return c15Typed{I: t.i, U: t.u, PI: &i, PU: &u, LI: []int64{t.i, -t.i}, LU: []uint64{t.u, ^t.u}, F: t.f, PF: &f, S: t.s, JN: json.Number(t.s),
+			B: new(big.Int).Set(t.b), Sub: sub, PSub: &sub, LSub: []c15TSub{sub, {I: math.MinInt64, U: math.MaxUint64, F: -t.f}}}
+	}, func() any { return new(c15Typed) }},
+	{"typed_maps", "jy", false, func(_ any, t c15TVals) any {
+		return c15TMaps{MI: map[string]int64{"a": t.i, "b": math.MaxInt64}, MU: map[string]uint64{"a": t.u, "b": math.MaxUint64},
+			MF: map[string]float64{"a": t.f}, MS: map[string]c15TSub{"a": c15TSubOf(t)}}
+	}, func() any { return new(c15TMaps) }},
+	{"typed_attr", "x", false, func(_ any, t c15TVals) any {
+		return c15XAttr{XMLName: xml.Name{Local: "doc"}, I: t.i, U: t.u, F: t.f, S: t.s, Sub: []c15XSub{{I: t.i, U: t.u}, {I: math.MinInt64, U: math.MaxUint64}}}
+	}, func() any { return new(c15XAttr) }},
+}
+
+func c15SlotByName(name string) *c15SlotDef {
+	for i := range c15Slots {
+		if c15Slots[i].name == name {
+			return &c15Slots[i]
+		}
+	}
+	panic("rt/slots: unknown slot " + name)
+}
+
+func c15FloatText(f float64) string {
+	if f == math.Trunc(f) && math.Abs(f) < 1e21 {
+		return strconv.FormatFloat(f, 'f', -1, 64)
+	}
+	return strconv.FormatFloat(f, 'g', -1, 64)
+}
+
+var c15BigIntType = reflect.TypeOf(big.Int{})
+var c15JSONNumberType = reflect.TypeOf(json.Number(""))
+var c15XMLNameType = reflect.TypeOf(xml.Name{})
+
+// c15Leaves walks a value in a fixed order and prints every leaf as path=kind:text.
+func c15Leaves(v reflect.Value, path string, out *[]string) {
+	emit := func(s string) { *out = append(*out, path+"="+s) }
+	if !v.IsValid() {
+		emit("nil")
+		return
+	}
+	switch v.Type() {
+	case c15BigIntType:
+		if v.CanAddr() {
+			emit("n:" + v.Addr().Interface().(*big.Int).String())
+		} else {
+			b := v.Interface().(big.Int)
+			emit("n:" + b.String())
+		}
+		return
+	case c15JSONNumberType:
+		emit("n:" + v.String())
+		return
+	case c15XMLNameType:
+		return
+	}
+	switch v.Kind() {
+	case reflect.Interface, reflect.Ptr:
+		if v.IsNil() {
+			emit("nil")
+			return
+		}
+		c15Leaves(v.Elem(), path, out)
+	case reflect.Struct:
+		for i := 0; i < v.NumField(); i++ {
+			f := v.Type().Field(i)
+			if f.PkgPath != "" && !f.Anonymous {
+				continue
+			}
+			c15Leaves(v.Field(i), path+"."+f.Name, out)
+		}
+	case reflect.Map:
+		type kv struct {
+			k string
+			v reflect.Value
+		}
+		var kvs []kv
+		for it := v.MapRange(); it.Next(); {
+			kvs = append(kvs, kv{fmt.Sprint(it.Key().Interface()), it.Value()})
+		}
+		sort.Slice(kvs, func(a, b int) bool { return kvs[a].k < kvs[b].k })
+		if len(kvs) == 0 {
+			emit("empty")
+		}
+		for _, e := range kvs {
+			c15Leaves(e.v, path+"["+e.k+"]", out)
+		}
+	case reflect.Slice, reflect.Array:
+		if v.Len() == 0 {
+			emit("empty")
+		}
+		for i := 0; i < v.Len(); i++ {
+			c15Leaves(v.Index(i), path+"["+strconv.Itoa(i)+"]", out)
+		}
+	case reflect.String:
+		emit("s:" + v.String())
+	case reflect.Int, reflect.Int8, reflect.Int16, reflect.Int32, reflect.Int64:
+		emit("n:" + strconv.FormatInt(v.Int(), 10))
+	case reflect.Uint, reflect.Uint8, reflect.Uint16, reflect.Uint32, reflect.Uint64:
+		emit("n:" + strconv.FormatUint(v.Uint(), 10))
+	case reflect.Float32, reflect.Float64:
+		emit("n:" + c15FloatText(v.Float()))
+	case reflect.Bool:
+		emit("b:" + strconv.FormatBool(v.Bool()))
+	default:
+		emit("?:" + v.Type().String())
+	}
+}
+
+func c15RunSlots(in c15In, obs *c15Obs) {
+	prod, cons := c15Codecs(in.Codec)
+	slot := c15SlotByName(in.Slot)
+	src := slot.mk(c15SlotLeaf(in.Codec, in.Num, in.NumSrc), c15TypedVals(in.Num))
+	c15Leaves(reflect.ValueOf(src), "", &obs.Want)
+	sink := c15NewWriter(nil, "")
+	if err := prod.Produce(sink, src); err != nil {
+		obs.Failed, obs.Detail = true, "produce: "+err.Error()
+		return
+	}
+	obs.Wire = Bs(sink.got)
+	var rd io.Reader
+	if len(in.Num)%2 == 0 {
+		rd = c15NewReader(c15OneByteSteps(sink.got))
+	} else {
+		rd = c15NewReader([]c15Step{{C: Bs(sink.got), T: 1}})
+	}
+	dst := slot.fresh()
+	if err := cons.Consume(rd, dst); err != nil {
+		obs.Failed, obs.Detail = true, "consume: "+err.Error()
+		return
+	}
+	c15Leaves(reflect.ValueOf(dst).Elem(), "", &obs.GotL)
+}
+
+// c15NumClass: what kind of literal (for the distribution report).
+func c15NumClass(lit string) string {
+	if strings.ContainsAny(lit, "eE") {
+		return "exponent"
+	}
+	if strings.Contains(lit, ".") {
+		return "decimal"
+	}
+	b, ok := new(big.Int).SetString(lit, 10)
+	if !ok {
+		return "other"
+	}
+	abs := new(big.Int).Abs(b)
+	switch {
+	case abs.Cmp(big.NewInt(1<<53)) <= 0:
+		return "int53"
+	case b.IsInt64():
+		return "int64"
+	case b.IsUint64():
+		return "uint64"
+	}
+	return "bigint"
+}
+
+func c15Digits(r *rand.Rand, n int) string {
+	b := make([]byte, n)
+	for i := range b {
+		b[i] = byte('0' + r.Intn(10))
+	}
+	if b[0] == '0' {
+		b[0] = byte('1' + r.Intn(9))
+	}
+	return string(b)
+}
+
+// c15NumLit draws a number literal (valid JSON number syntax): integers around and beyond 2^53, the int64 / uint64
+// limits, integers of 20 to 60 digits, long decimals, exponents beyond float64, and a few small ones.
+func c15NumLit(r *rand.Rand) string {
+	sign := func(s string) string {
+		if r.Intn(3) == 0 {
+			return "-" + s
+		}
+		return s
+	}
+	switch r.Intn(10) {
+	case 0:
+		return []string{"9007199254740993", "-9007199254740993", "9007199254740992", "9007199254740995", "18014398509481985"}[r.Intn(5)]
+	case 1:
+		return []string{"9223372036854775807", "-9223372036854775808", "9223372036854775808", "18446744073709551615", "18446744073709551616",
+			"-9223372036854775809", "9223372036854775806"}[r.Intn(7)]
+	case 2, 3: // 17 or 18 digits (fits an int64), last digit odd
+		d := c15Digits(r, 16+r.Intn(2)) + string(rune('1'+2*r.Intn(5)))
+		return sign(d)
+	case 4: // 19 or 20 digits: int64, uint64 or neither
+		return sign(c15Digits(r, 19+r.Intn(2)))
+	case 5:
+		return sign(c15Digits(r, 21+r.Intn(40)))
+	case 6:
+		return sign(c15Digits(r, 1+r.Intn(20)) + "." + c15Digits(r, 17+r.Intn(14)))
+	case 7:
+		return sign(c15Digits(r, 1+r.Intn(25)) + []string{"e400", "e-400", "E+5", "e30", "E-3", "e+308", "e0"}[r.Intn(7)])
+	case 8:
+		return []string{"0.1000000000000000055511151231257827", "1e400", "-1.5e-400", "1E+2", "123456789012345678901234567890e-10",
+			"0.30000000000000004440892098500626", "1.7976931348623157e308", "5e-324", "4.9e-325"}[r.Intn(9)]
+	default:
+		return []string{"0", "-0", "1", "42", "-7", "1.5", "100", "0.1", "1e3"}[r.Intn(9)]
+	}
+}
+
+// c15GenSlots draws one slots case for the codec.
+func c15GenSlots(r *rand.Rand, codec string) c15In {
+	var slots []string
+	for _, sd := range c15Slots {
+		if strings.Contains(sd.codecs, codec[:1]) {
+			slots = append(slots, sd.name)
+		}
+	}
+	in := c15In{Kind: "rt", Codec: codec, Shape: "slots", Slot: slots[r.Intn(len(slots))], Num: c15NumLit(r)}
+	in.NumSrc = c15NumSrcFor(r, codec, in.Num)
+	return in
+}
+
+// c15NumSrcFor: the source representations the codec can carry for this literal.
+func c15NumSrcFor(r *rand.Rand, codec, lit string) string {
+	_, e1 := strconv.ParseInt(lit, 10, 64)
+	_, e2 := strconv.ParseUint(lit, 10, 64)
+	isInt := e1 == nil || e2 == nil
+	pick := r.Intn(6)
+	switch codec {
+	case "json":
+		switch {
+		case pick == 0:
+			return "string"
+		case isInt && pick < 3:
+			return "int"
+		}
+		return "number"
+	case "yaml":
+		switch {
+		case pick == 0:
+			return "string"
+		case isInt:
+			return "int"
+		}
+		return "float"
+	}
+	return "int"
+}
+
 // ---------- Gallina ----------
 
 func c15CoqCodec(s string) string {
@@ -977,6 +1451,9 @@ func (c15) Coq(inAny any, obsAny any) string {
 		return fmt.Sprintf("CDiscard %s %s %s %s %s", coqBool(obs.Panicked), c15CoqErr(obs.Err), c15Nat(obs.Reads), c15Nat(obs.Writes), c15Nat(obs.Closes))
 	case "rt":
 		f := map[string]int{"json": 0, "xml": 1, "yaml": 2}[in.Codec]
+		if in.Shape == "slots" {
+			return fmt.Sprintf("CNumSlots %d %s %s %s %s", f, coqBool(obs.Panicked), coqBool(obs.Failed), coqBytesList(obs.Want), coqBytesList(obs.GotL))
+		}
 		sh := map[string]int{"doc": 0, "bignum": 1, "html": 2, "first": 3}[in.Shape]
 		return fmt.Sprintf("CRoundTrip %d %d %s %s", f, sh, coqBool(obs.Panicked), coqBool(obs.OK))
 	}
@@ -1062,6 +1539,18 @@ func (c15) Category(inAny any, obsAny any) (string, bool) {
 	case "discard":
 		return "discard", true
 	default:
+		if in.Shape == "slots" {
+			switch {
+			case obs.Failed:
+				out = "err"
+			case !reflect.DeepEqual(obs.Want, obs.GotL):
+				out = "differs"
+			}
+			return fmt.Sprintf("rt/%s/slots/%s/%s/%s/%s", in.Codec, in.Slot, in.NumSrc, c15NumClass(in.Num), out), true
+		}
+		if !obs.Panicked && !obs.OK {
+			out = "differs"
+		}
 		return fmt.Sprintf("rt/%s/%s/%s", in.Codec, in.Shape, out), true
 	}
 }
@@ -1242,8 +1731,10 @@ func c15Codec(r *rand.Rand) string {
 }
 
 func (c15) Gen(r *rand.Rand, tier string, i int) any {
-	k := r.Intn(20)
+	k := r.Intn(22)
 	switch {
+	case k >= 20:
+		return c15GenSlots(r, []string{"json", "json", "json", "yaml", "yaml", "xml"}[r.Intn(6)])
 	case k < 10:
 		in := c15In{Kind: "consume", Codec: c15Codec(r), CloseOpt: r.Intn(2) == 0, Closable: r.Intn(3) != 0}
 		if in.Codec == "text" {
@@ -1414,6 +1905,36 @@ func (c15) Enumerate(tier string) []any {
 		out = append(out, c15In{Kind: "rt", Codec: "json", Shape: "bignum", Content: Bs(c)})
 		out = append(out, c15In{Kind: "rt", Codec: "json", Shape: "html", Content: Bs(c)})
 		out = append(out, c15In{Kind: "rt", Codec: "json", Shape: "first", Content: Bs(c)})
+	}
+	// every slot of every codec against a fixed family of literals, in every source representation the codec carries
+	lits := []string{"9007199254740993", "-9223372036854775808", "18446744073709551615", "123456789012345678901234567890",
+		"0.1000000000000000055511151231257827", "1e400", "42"}
+	for _, sd := range c15Slots {
+		for _, codec := range []string{"json", "yaml", "xml"} {
+			if !strings.Contains(sd.codecs, codec[:1]) {
+				continue
+			}
+			for li, lit := range lits {
+				if tier == "quick" && !sd.iface && li%2 == 1 {
+					continue
+				}
+				srcs := map[string][]string{"json": {"number", "int", "string"}, "yaml": {"int", "float", "string"}, "xml": {"int"}}[codec]
+				if !sd.iface {
+					srcs = srcs[:1]
+				}
+				for _, ns := range srcs {
+					_, e1 := strconv.ParseInt(lit, 10, 64)
+					_, e2 := strconv.ParseUint(lit, 10, 64)
+					if ns == "int" && e1 != nil && e2 != nil {
+						continue
+					}
+					if ns == "string" && li > 1 {
+						continue
+					}
+					out = append(out, c15In{Kind: "rt", Codec: codec, Shape: "slots", Slot: sd.name, Num: lit, NumSrc: ns})
+				}
+			}
+		}
 	}
 	return out
 }
